@@ -352,6 +352,56 @@ def _resolve_local(func, e):
     return e
 
 
+def _wrapper_catches_all(ctx, mod, md, qe):
+    """run() invokes the user's callable through a wrapper (by role: the function it hands `f` to).  The release is attached to
+    the wrapper's RESULT, so every exception out of the user call-out must be turned into that result: the handler around the
+    call of the wrapper's callable parameter must be catch-all (bare / BaseException - `except Exception` lets GeneratorExit,
+    asyncio.CancelledError, KeyboardInterrupt ... escape before the releasing callback exists: capacity lost for ever)."""
+    name = (dotted(md.func) or "").split(".")[-1]
+    try:
+        defs = [f for f in ctx.tree.funcs(DEFER, name) if not any((dotted(d) or "").endswith("overload") for d in f.decorator_list)]
+    except AnalysisError:
+        defs = []
+    if len(defs) != 1:
+        ctx.note(f"run/call-out-exceptions-reach-release: wrapper {name} not defined in this module, clause not decided")
+        return
+    w = defs[0]
+    ctx.functions.add(f"{DEFER}:{name}")
+    qw = f"{MODNAME}.{name}"
+    params = [a.arg for a in w.args.posonlyargs + w.args.args]
+    if not params:
+        ctx.note(f"run/call-out-exceptions-reach-release: {name} takes no callable, clause not decided")
+        return
+    fp = params[0]
+    g = ctx.cfg(w, exception_is_all=False)
+    sites = g.find(lambda x: isinstance(x, ast.Call) and isinstance(x.func, ast.Name) and x.func.id == fp)
+    if not sites:
+        ctx.note(f"run/call-out-exceptions-reach-release: {name} does not call its first parameter directly, clause not decided")
+        return
+    for n in sites:
+        call = next(x for x in walk_local(g.node(n).ast) if isinstance(x, ast.Call) and isinstance(x.func, ast.Name) and x.func.id == fp)
+        excs = [d for d, l in g.succ[n] if l == "exc"]
+        handlers = [d for d in excs if g.node(d).kind == "handler"]
+        escapes = [d for d in excs if g.node(d).kind != "handler"]
+
+        def catch_all(h):
+            t = g.node(h).ast.type
+            names = [] if t is None else [dotted(e) for e in (t.elts if isinstance(t, ast.Tuple) else [t])]
+            return t is None or "BaseException" in names
+        ok = bool(handlers) and not escapes and any(catch_all(h) for h in handlers)
+        caught = ", ".join(sorted({src(g.node(h).ast.type) if g.node(h).ast.type is not None else "<bare>" for h in handlers})) or "nothing"
+        ctx.check(ok, "run/call-out-exceptions-reach-release", ctx.construct(qw, call),
+                  f"run() calls the user's function through {name}, which catches only `{caught}` around `{src(call)}`: an exception outside that "
+                  "(GeneratorExit, asyncio.CancelledError, KeyboardInterrupt, any BaseException subclass) escapes before the releasing callback is "
+                  "attached - the lock / token stays taken with no holder",
+                  detail="exception edges of the call-out in the wrapper's CFG (Exception is not treated as catch-all)")
+        for h in handlers:
+            wit = g.path([h], [g.raise_exit], edge_ok=lambda a, b, l: l != "exc")
+            ctx.check(wit is None, "run/call-out-exceptions-reach-release", ctx.construct(qw, call) + f" | <handler {src(g.node(h).ast.type) or 'bare'}>",
+                      "a handler around the call-out re-raises instead of turning the failure into the wrapper's result: that exception escapes "
+                      "before the releasing callback is attached", witness=g.describe(wit))
+
+
 def _check_run(ctx, mod):
     cls = ctx.cls(DEFER, "_ConcurrencyPrimitive")
     q = f"{MODNAME}._ConcurrencyPrimitive"
@@ -452,6 +502,7 @@ def _check_run(ctx, mod):
         ctx.check(len(mds) == 1, "run/function-via-maybeDeferred", qe + " | <maybeDeferred call>",
                   f"the function is invoked through maybeDeferred {len(mds)} times (exactly once expected)")
         for md in mds:
+            _wrapper_catches_all(ctx, mod, md, qe)
             star = [a.value.id for a in md.args if isinstance(a, ast.Starred) and isinstance(a.value, ast.Name)]
             dstar = [k.value.id for k in md.keywords if k.arg is None and isinstance(k.value, ast.Name)]
             ctx.check(star == ([va] if va else []) and dstar == ([kwa] if kwa else []) and len(md.args) == 1 + len(star),
@@ -735,4 +786,16 @@ MUTANTS += [
                                       "        self._give()\n        if not self.waiting:\n            return None\n")) for p_, o_, n_ in _HOOKED]),
     Mutant("semaphore-hook-takes-nothing", DEFER, _LOCK_TAIL, _LOCK_REL_HOOKED, expect_rule="invariant/",
            more=[(p_, o_, n_.replace("    def _take(self):\n        self.tokens = self.tokens - 1\n", "    def _take(self):\n        pass\n")) for p_, o_, n_ in _HOOKED]),
+]
+
+_MD_HANDLER = "        result = f(*args, **kwargs)\n    except BaseException:\n"
+MUTANTS += [
+    # the wrapper run() relies on narrows its handler: exceptions outside Exception escape before the release is attached
+    Mutant("wrapper-handler-narrowed-to-exception", DEFER, _MD_HANDLER, "        result = f(*args, **kwargs)\n    except Exception:\n",
+           expect_rule="run/call-out-exceptions-reach-release"),
+    Mutant("wrapper-handler-reraises-cancellation", DEFER, _MD_HANDLER, "        result = f(*args, **kwargs)\n    except GeneratorExit:\n        raise\n    except BaseException:\n",
+           expect_rule="run/call-out-exceptions-reach-release"),
+]
+SILENT += [
+    Silent("wrapper-handler-bare-except", DEFER, _MD_HANDLER, "        result = f(*args, **kwargs)\n    except:  # noqa: E722\n"),
 ]
